@@ -53,11 +53,17 @@ Fixpoint build_all (sps : list spelling) : option (list constr) :=
 Definition op_index (op : cop) : Z :=
   match op with OpEq => 0 | OpLeq => 1 | OpGeq => 2 | OpNeq => 3 | OpLt => 4 | OpGt => 5 end.
 
-(* magnitude test for cases where the float computation rounded: relative 2^-40 *)
+(* binary64 overflow: an exact result of at least 2^1024 - 2^970 (largest double + half an ulp) rounds to +inf.
+   The Q model does not round, so "finite violations whose float sum (or difference) overflows" shows up as
+   implementation = +inf against a finite model value at or beyond that threshold. *)
+Definition overflow_threshold : Q := inject_Z (2 ^ 1024 - 2 ^ 970).
+
+(* magnitude test for cases where the float computation rounded: relative 2^-40, or overflow to +inf *)
 Definition close (model impl : xq) : bool :=
   match model, impl with
   | PInf, PInf => true
-  | Fin a, Fin b => Qle_bool (Qabs (a - b) * (1099511627776 # 1)) a
+  | Fin a, Fin b => Qle_bool (Qabs (a - b) * (1099511627776 # 1)) a && negb (Qle_bool overflow_threshold a)
+  | Fin a, PInf => Qle_bool overflow_threshold a
   | _, _ => false
   end.
 
